@@ -21,7 +21,7 @@ func mustJSON(s string) interface{} {
 // equal-but-distinct containers.
 var universeText = []string{
 	`null`, `true`, `false`, `0`, `1`, `-1`, `0.5`, `-0.5`, `2`, `1.5`, `100`, `1e21`, `0.3`, `0.30000000000000004`, `9007199254740992`, `9007199254740994`,
-	`""`, `"a"`, `"b"`, `"ab"`, `"1"`, `"0"`, `"true"`, `"null"`, `" "`, `"é"`, `"世"`,
+	`""`, `"a"`, `"b"`, `"ab"`, `"1"`, `"0"`, `"true"`, `"null"`, `" "`, `"é"`, `"世"`, `"[1, 2]"`, `"{\"a\": 1}"`,
 	`[]`, `[1]`, `[1,2]`, `[2,1]`, `["a"]`, `["a","b"]`, `[null]`, `[[]]`, `[[1]]`, `[1,"a"]`, `[false]`,
 	`{}`, `{"a":1}`, `{"a":2}`, `{"b":1}`, `{"a":1,"b":2}`, `{"a":null}`, `{"a":[]}`, `{"a":{"b":1}}`, `{"x":null}`, `{"y":null}`,
 }
@@ -523,6 +523,11 @@ func streamTruth(seed uint64, idx int) caseT {
 		e = "arr[?@ " + op + " " + literalTok(u2) + "]"
 	default:
 		e = "[!a, !b, a " + op + " b, !(a " + op + " b)]"
+	}
+	if form == 2 && idx%3 == 0 {
+		// the same comparison with a FIELD on the left, over elements most of which are not objects
+		doc["mix"] = []interface{}{u1, map[string]interface{}{"a": u1}, nil, 1.0, "s", []interface{}{u1}, map[string]interface{}{"b": u1}, true}
+		e = "[mix[?a " + op + " " + literalTok(u2) + "], mix[*].(a " + op + " " + literalTok(u2) + "), mix[?" + literalTok(u2) + " " + op + " a]]"
 	}
 	return caseT{lines: []string{"S " + hexField(e) + " " + canonOf(doc)}}
 }
